@@ -90,7 +90,7 @@ class CostModel:
             key = {'raw_number': 'num', 'raw_currency': 'cur'}.get(attr)
             if key:
                 if v is None:
-                    raise AnalysisError(f'FSM-COST: required {key} of an amount set to None')
+                    raise Refused(f'the required {key} of an amount is set to None (fails at run time)')
                 s['amount'][key] = v
                 return
         raise AnalysisError(f'FSM-COST: assignment to {attr} of {obj} is not modelled')
@@ -100,7 +100,7 @@ class CostModel:
             return args[0]
         if name == 'Amount.from_children':
             if args[0] is None or args[1] is None:
-                raise AnalysisError('FSM-COST: Amount.from_children with a missing part')
+                raise Refused('Amount.from_children is handed None for a required part (fails at run time)')
             return ('AMOUNTOBJ', args[0], args[1])
         if name == 'CompoundAmount.from_children':
             return ('COMPOUNDOBJ', args[0], args[1], args[2])
@@ -507,6 +507,10 @@ def run(ctx: RuleContext, p: Program) -> None:
     ctx.try_rule(round4.rule_meta_sem, p, 'META-SEM')
     from . import grammar_rules
     ctx.try_rule(grammar_rules.rule_term_domain, p, 'TERM-DOMAIN')
+    from . import round4 as _r4c
+    ctx.try_rule(_r4c.rule_custom_sem, p, 'CUSTOM-SEM')
+    from . import nodesem as _ns
+    ctx.try_rule(_ns.rule_unord_sem, p, 'UNORD-SEM')
     ctx.not_decided += ['survival of values through print and re-parse', 'value domains of each token type (C12)',
                         'other dependent groups (none documented)']
     ctx.assumptions += ['primitive models of FSM-COST: unordered_node_property get/set means present/absent component of that type; '
